@@ -283,6 +283,6 @@ void run_case(Rng& rng, std::uint64_t idx)
 
 } // namespace
 
-std::uint64_t vfh_num_cases(bool thorough) { return thorough ? 20000 : 450; }
+std::uint64_t vfh_num_cases(bool thorough) { return thorough ? 40000 : 450; }
 void vfh_run_case(std::uint64_t idx, Rng& rng) { run_case(rng, idx); }
 void vfh_selftest() {}
